@@ -96,6 +96,8 @@ def main():
             text += (f" The decision logic of {GUARDS[pid]} is re-translated from the source into Lean on every run (translate/py2lean_guards.py → LK/Generated/Guards{pid}.lean) "
                      f"and proved to be the model's (LK/Proofs/Guards{pid}.lean); a broken obligation triggers the failing-input search.")
             tech += " + per-run translation of decision logic with proof obligations"
+        if pid == "C05":
+            text += " The holdout methods SampleN / SampleFrac / LastN / LastFrac are re-translated on every run (translate/py2lean_holdout.py) and LastN is proved equal to the model's repaired lastN."
         if pid == "C06":
             text += " array_dcg / fixed_dcg are re-translated statement by statement on every run (translate/py2lean_np.py → LK/Generated/NpC06.lean) and proved equal to the model's arrayDcg / fixedDcg."
         if pid == "C08":
